@@ -20,6 +20,9 @@ REQUIRED = [
     "fact_get_reads_timestamp_first", "fact_check_order", "fact_add_deletes_previous", "fact_expiry_comparisons",
     "fact_update_service_shape", "fact_restart_after_wipe", "fact_service_writers_locked", "fact_loops_visit_everything",
     "fact_comparisons_exact", "fact_exists_key", "fact_background_jobs", "fact_wiring", "fact_store_guards_credential_id",
+    # deepening round 3 (Props/C16R3.lean): client loop guards, seed discipline
+    "fact_update_loop_guards", "fact_add_arguments", "fact_seed_draw",
+    "client_loop_never_panics", "client_refuses_malformed", "client_refuses_malformed_after_held",
     # deepening round 2026-09-28: node layer (Props/C16Node.lean)
     "fact_status_table", "fact_verify_returns", "fact_routing_order", "fact_cycle_detected", "fact_load_definitions",
     "fact_api_timestamp_default", "fact_update_all_shape", "fact_update_cycle_order", "fact_validated_only_after_verification",
@@ -455,7 +458,7 @@ def node_leg(ctx, binary, replay=None):
 
 def run(ctx):
     ctx.facts()
-    thms = ctx.build_and_audit(["NutsProofs.Props.C16", "NutsProofs.Props.C16Node"])
+    thms = ctx.build_and_audit(["NutsProofs.Props.C16", "NutsProofs.Props.C16Node", "NutsProofs.Props.C16R3"])
     for r in REQUIRED:
         if not any(t.endswith("Props." + r) for t in thms):
             ctx.oblige("thm-present:" + r, False, "theorem missing or its module does not build")
@@ -688,6 +691,13 @@ def run(ctx):
         for r in S["rows"]:
             if (r["subject"], r["id"]) not in accepted:
                 report("C16:listed-unsound:unknown-row", "server lists a row that no accepted registration produced", i)
+        # round 3: a presentation without id / not a JWT handed out by a hostile server is refused with an error and not stored
+        if kind == "pollinject" and (op.get("class") or "").startswith("hostile:malformed"):
+            n_forged[op.get("class", "?")] += 1
+            if not cls.startswith("err:") and not cls.startswith("panic"):
+                report("C16:client-accepted-malformed-presentation", f"updateService answered {cls} to a response holding a presentation without id / not a JWT", i)
+            if prev and {(r["subject"], r["id"]) for r in C["rows"]} - {(r["subject"], r["id"]) for r in prev["C"]["rows"]}:
+                report("C16:client-stored-malformed-presentation", "the replica gained a row from a response whose only new entry has no id / is not a JWT", i)
         # client search: only validated, unexpired rows the client verified itself
         if kind == "pollinject" and op.get("vp", {}).get("signer") and op["vp"].get("id") is not None:
             handed_out[(op["vp"]["signer"][0], op["vp"]["id"])] = op["vp"]   # what a defective server handed out
